@@ -120,6 +120,21 @@ func (e Error) GoString() string {
 }
 
 func (e ottoError) describe(format string, in ...interface{}) string {
+	// Convert values to strings here rather than through their String method
+	// inside fmt: the conversion can run script code (toString), and fmt
+	// recovers whatever that panics with, including an interrupt function's panic.
+	var args []interface{}
+	for i, arg := range in {
+		if value, ok := arg.(Value); ok {
+			if args == nil {
+				args = append(args, in...)
+			}
+			args[i] = value.string()
+		}
+	}
+	if args != nil {
+		in = args
+	}
 	return fmt.Sprintf(format, in...)
 }
 
